@@ -19,6 +19,7 @@ import (
 	"net/http/httptest"
 	"os"
 	"runtime"
+	"runtime/trace"
 	"sort"
 	"strings"
 	"sync"
@@ -823,6 +824,46 @@ func gen(tier string, seed uint64) []runner.Scenario {
 						a.guard("Stream.HandlePacket", func() string { return fmt.Sprintf("kind=%d control=%v stream=%d data=%s", kind, ctl, sid, hexs(d)) }, func() {
 							var sink bytes.Buffer
 							st := drpcstream.New(context.Background(), 5, drpcwire.NewWriter(&sink, 0))
+							st.HandlePacket(pkt)
+							st.HandlePacket(pkt)
+							st.Close()
+						})
+					}
+				}
+			}
+		}
+	})
+
+	// H1b. the same dispatch while the process is being traced (runtime/trace, as /debug/pprof/trace
+	// switches on): the stream takes other paths then, for streams made before and after the trace began
+	add("stream/handlepacket-while-tracing", func(a *acc) {
+		datas := [][]byte{nil, make([]byte, 8), bytes.Repeat([]byte{0xff}, 30)}
+		for _, startFirst := range []bool{true, false} {
+			for kind := 0; kind < 64; kind++ {
+				if kind == int(drpcwire.KindMessage) || (kind > 9 && kind < 62) {
+					continue
+				}
+				for _, ctl := range []bool{false, true} {
+					for _, d := range datas {
+						pkt := drpcwire.Packet{Data: d, ID: drpcwire.ID{Stream: 5, Message: 3}, Kind: drpcwire.Kind(kind), Control: ctl}
+						a.guard("Stream.HandlePacket(traced)", func() string {
+							return fmt.Sprintf("kind=%d control=%v data=%s trace-started-before-the-stream=%v", kind, ctl, hexs(d), startFirst)
+						}, func() {
+							var sink bytes.Buffer
+							var st *drpcstream.Stream
+							if startFirst {
+								if trace.Start(io.Discard) != nil {
+									return
+								}
+								defer trace.Stop()
+								st = drpcstream.New(context.Background(), 5, drpcwire.NewWriter(&sink, 0))
+							} else {
+								st = drpcstream.New(context.Background(), 5, drpcwire.NewWriter(&sink, 0))
+								if trace.Start(io.Discard) != nil {
+									return
+								}
+								defer trace.Stop()
+							}
 							st.HandlePacket(pkt)
 							st.HandlePacket(pkt)
 							st.Close()
